@@ -175,7 +175,7 @@ def build(case):
     if case["kind"] == "pipe":
         rng = case_rng(ID, case["seed"], ("pipe", case["pipe"], case["k"]))
         root, info = pipes.gen_pipeline(rng, case["pipe"])
-        cx = any("complex" in str(n.dtype).lower() for c in tie.pipeline_circuits(root) for n in tie.circuit_leaves(c)[0])
+        cx = any(n.dtype.name == "COMPLEX" for c in tie.pipeline_circuits(root) for n in tie.circuit_leaves(c)[0])
         return rng, root, info["domains"], ("complex-lse-sum" if cx or rng.random() < 0.3 else "sum-product"), False, cx
     rng = case_rng(ID, case["seed"], ("directed", case["name"], case["k"]))
     sc, domains = _directed(case["name"], rng)
